@@ -103,7 +103,7 @@ class PythonCV2XLinkLayer(LinkLayer):
             if self.receive_callback:
                 try:
                     self.receive_callback(data)
-                except NotImplementedError as e:
+                except Exception as e:  # pylint: disable=broad-except
                     print("Error decoding packet: " + str(e))
 
     def stop(self) -> None:
